@@ -599,6 +599,8 @@ cdef class _ProdElement(_BaseElement):
         if type(right) is _ProdElement:
             self = right
             factor = left
+        if self._conj:
+            factor = conj(factor)
         return _ProdElement(self._left, self._right * factor,
                             self._transform.copy(), self._conj)
 
